@@ -15,6 +15,7 @@ type State struct {
 	alloc  string                  // allocation counter (Int)
 	defers []deferRec
 	epoch  int // bumped at every wholesale havoc; names lazily created heaps
+	gepoch int // same for ghost integers (survive `modifies *` contracts)
 	// write log per leaf class: pending single-cell stores on top of
 	// heaps[class] (the base).  The heap denoted is base with the log applied
 	// in order; keeping stores at cell level avoids ite terms over whole
@@ -48,7 +49,7 @@ type deferRec struct {
 }
 
 func (s *State) clone() *State {
-	n := &State{locals: make(map[*ssa.Alloc][]string, len(s.locals)), heaps: make(map[string]string, len(s.heaps)), alloc: s.alloc, epoch: s.epoch}
+	n := &State{locals: make(map[*ssa.Alloc][]string, len(s.locals)), heaps: make(map[string]string, len(s.heaps)), alloc: s.alloc, epoch: s.epoch, gepoch: s.gepoch}
 	for k, v := range s.locals {
 		n.locals[k] = v // leaf slices are replaced, never mutated in place
 	}
@@ -514,13 +515,36 @@ func (e *Enc) allocObj(s *State, elem types.Type, guard string) string {
 	return r
 }
 
+// zeroMid is the all-zero contents of an object for a leaf class.  For the
+// uninterpreted string sort a constant array is not expressible in every
+// solver (cvc5 wants a value), so a declared array with a defining axiom is
+// used instead.
+func (e *Enc) zeroMid(so string) string {
+	if so != SStr {
+		return fmt.Sprintf("((as const %s) ((as const %s) %s))", midSort(so), innerSort(so), zeroOf(so))
+	}
+	if !e.c.ufs["zero_mid_Str"] {
+		e.c.ufs["zero_mid_Str"] = true
+		e.c.raw("(declare-const zero_mid_Str " + midSort(so) + ")")
+		e.c.raw("(assert (forall ((i!q (_ BitVec 64)) (s!q (_ BitVec 64))) (! (= (select (select zero_mid_Str i!q) s!q) str_empty) :pattern ((select (select zero_mid_Str i!q) s!q)))))")
+	}
+	return "zero_mid_Str"
+}
+
+func (e *Enc) zeroInner(so string) string {
+	if so != SStr {
+		return fmt.Sprintf("((as const %s) %s)", innerSort(so), zeroOf(so))
+	}
+	return "(select " + e.zeroMid(so) + " (_ bv0 64))"
+}
+
 // zeroObject makes every cell of object ref zero in the heaps of the
 // given classes.
 func (e *Enc) zeroObject(s *State, ref string, classes []string) {
 	for _, so := range classes {
 		e.noteWrite(writeRec{Class: so, Kind: "object", Ref: ref})
 		h := e.heap(s, so)
-		z := fmt.Sprintf("((as const %s) ((as const %s) %s))", midSort(so), innerSort(so), zeroOf(so))
+		z := e.zeroMid(so)
 		setHeap(s, so, e.c.define("H"+className(so), heapSort(so), sto(h, ref, z)))
 	}
 }
